@@ -624,6 +624,7 @@ fn resolve_anchor(loc: &Located, path: &str, what: &str) -> usize {
 }
 
 thread_local! { static CUR_TEXT: std::cell::RefCell<String> = std::cell::RefCell::new(String::new()); }
+thread_local! { static PLAIN: std::cell::Cell<bool> = std::cell::Cell::new(false); }
 fn loc_text_byte(_loc: &Located, off: usize) -> u8 {
     CUR_TEXT.with(|t| t.borrow().as_bytes()[off])
 }
@@ -938,6 +939,7 @@ fn main() {
         }
     }
     let plain = cmds.iter().any(|c| matches!(c, Cmd::Plain));
+    PLAIN.with(|p| p.set(plain)); // plain (non-Verus) units keep visibility: fragment crates are used from outside
     let mut header = String::from("// GENERATED by vx from /repo on every run — do not edit\n");
     if !plain {
         header.push_str("#![allow(unused)]\nuse vstd::prelude::*;\n");
@@ -1233,7 +1235,7 @@ fn emit_item(
                 // swallow the trailing newline+indent if the attribute stands alone on its line
                 add(&mut edits, n.r.lo, n.r.hi, String::new(), "R2-attr", None);
             }
-            Kind::Vis => {
+            Kind::Vis if !PLAIN.with(|p| p.get()) => {
                 let mut hi = n.r.hi;
                 while hi < text.len() && text.as_bytes()[hi] == b' ' {
                     hi += 1;
